@@ -19,12 +19,27 @@ template <class F> void tiff_write_case(DevSpec const& d, Bytes& sink, F&& f, st
     f(t);
 }
 template <class F> void tiff_write_case(DevSpec const&, Bytes&, F&&, std::false_type) {}
+// Earlier output of the caller in the destination (a FILE* or ostream that is not at position 0): `pre` bytes of a fixed
+// pattern; after write_view they must be unchanged, and the image is what follows them.
+inline unsigned char preamble_byte(int i) { return (unsigned char)(0xA0 + (i * 7) % 61); }
+inline bool& preamble_damaged() { static bool b = false; return b; }
+inline void strip_preamble(Bytes& sink, int pre)
+{
+    preamble_damaged() = false;
+    if (pre <= 0) return;
+    if ((int)sink.size() < pre) { preamble_damaged() = true; return; }
+    for (int i = 0; i < pre; ++i) if (sink[(size_t)i] != preamble_byte(i)) preamble_damaged() = true;
+    sink.erase(sink.begin(), sink.begin() + pre);
+}
+
 template <class F> void stdio_write_case(DevSpec const& d, Bytes& sink, F&& f, std::true_type)
 {
     Channel* ch = disk()->open_bytes(&sink, true, d.sch);
     FILE* fp = open_cookie(ch, "wb", d.bufsz);
     if (!fp) throw std::runtime_error("fopencookie failed");
+    for (int i = 0; i < d.preamble; ++i) fputc(preamble_byte(i), fp);
     f(fp); // gil closes
+    strip_preamble(sink, d.preamble);
 }
 template <class F> void stdio_write_case(DevSpec const&, Bytes&, F&&, std::false_type) {}
 
@@ -33,6 +48,7 @@ template <class F> void stdio_write_case(DevSpec const&, Bytes&, F&&, std::false
 template <class Tag, class F> void with_write_device(DevSpec const& d, Bytes& sink, char const* ext, F&& f)
 {
     sink.clear();
+    preamble_damaged() = false;
     switch (d.kind)
     {
     case DEV_FILE:
@@ -43,8 +59,10 @@ template <class Tag, class F> void with_write_device(DevSpec const& d, Bytes& si
         Channel* ch = disk()->open_bytes(&sink, true, d.sch);
         Streambuf sb(ch, d.bufsz <= 0 ? (d.bufsz == 0 ? 1 : 4096) : (size_t)d.bufsz, 0);
         std::ostream os(&sb);
+        for (int i = 0; i < d.preamble; ++i) os.put((char)preamble_byte(i));
         f(os);
         os.flush();
+        strip_preamble(sink, d.preamble);
         break;
     }
     case DEV_NAME:
@@ -154,11 +172,22 @@ struct RoundTrip
         DevSpec wd = dev_from_json(plan.at("wdev"));
         DevSpec rd = dev_from_json(plan.at("rdev"));
         Img back;
+        bool reading = false;
         guarded(o, [&] {
             with_write_device<Tag>(wd, sink, ext, [&](auto& dev) { gil::write_view(dev, src, info); });
-            ReadSpec rs; rs.dev = rd;
+            if (preamble_damaged()) throw std::runtime_error("earlier output in the destination was overwritten or lost");
+            reading = true;
             with_read_device<Tag>(rd, sink, ext, [&](auto& dev) { gil::read_image(dev, back, Tag()); });
         });
+        // a device that cannot seek may be refused by a reader or writer that has to seek (exception); what it must not do
+        // is come back with other pixels
+        bool fmt_seeks = std::string(ext) == "bmp" || std::string(ext) == "tga"; // readers that position the device per row
+        if (o.cls != "ok" && reading && !rd.sch.seekable && fmt_seeks)
+        {
+            o.what = "refused on a device that cannot seek: " + o.what;
+            o.cls = "skipped:refused-noseek";
+            return o;
+        }
         if (o.cls != "ok")
         {
             o.what = "exception " + o.cls + ": " + o.what;
@@ -276,6 +305,11 @@ struct PathsCfg
     bool any_ok = true;          // native type is one of the any_image alternatives
     bool subrect_ok = true;
     bool convert_refused = false; // converting reads document a refusal for this variant
+    // devices that cannot seek: readers that position the device for every row (BMP: get_offset + seek, TARGA: seek to the
+    // row) cannot work on them and refuse with "seek error"; readers that are strictly sequential (PNM, PNG, JPEG) must
+    // work; the PNM scanline reader seeks only when rows are stepped over (skip_binary_row)
+    bool seeks = false;
+    bool scan_skip_seeks = false;
 };
 
 // Scan: pixel layout of the rows handed out by the scanline reader (the file's own layout, e.g. bgr8 for a 24 bit BMP)
@@ -326,8 +360,17 @@ struct Paths
         Outcome ok; ok.cls = "ok"; return ok;
     }
 
-    // one path op; returns ok / skipped / violation
+    // A device that cannot seek (pipe-like FILE*, forward-only streambuf) is still a FILE* / std::istream: a reader that needs
+    // to seek may refuse with an exception, but when it returns normally the pixels must be the same as by file name.
     template <class ConvertFn> static Outcome one(Json const& op, Native const& ref, Bytes& bytes, char const* ext, PathsCfg const& cfg, ConvertFn&& convert)
+    {
+        Outcome r = one_impl(op, ref, bytes, ext, cfg, convert);
+        bool may_refuse = cfg.seeks || (cfg.scan_skip_seeks && op.str("p") == "scan" && op.num("skip") != 0);
+        if (op.num("noseek") != 0 && may_refuse && r.cls == "violation:paths:unexpected-exception") { r.cls = "skipped:refused-noseek"; }
+        return r;
+    }
+    // one path op; returns ok / skipped / violation
+    template <class ConvertFn> static Outcome one_impl(Json const& op, Native const& ref, Bytes& bytes, char const* ext, PathsCfg const& cfg, ConvertFn&& convert)
     {
         std::string p = op.str("p");
         DevSpec d = dev_from_json(op);
